@@ -371,7 +371,24 @@ class Schema:
         if name == "int":
             return sv_int(eng.as_int(args[0], st))
         if name == "iter":
-            return args[0]
+            a = args[0]
+            if a.k in ("ref", "val") and a.cls:
+                ci = eng.prog.classes.get(a.cls)
+                if ci is not None and ci.lookup("__iter__"):
+                    return eng.call_method(a, ci, "__iter__", [], {}, st)
+            return a
+        if name == "next":
+            # next(iterator over a set): StopIteration when exhausted, else some element (arbitrary choice)
+            a = args[0]
+            if a.k != "set":
+                raise Unsupported("next() on %s" % a.k)
+            s2 = st.fork()
+            s2.assume(a.t == EmptySet)
+            eng.exc_paths.append((s2, Exc("StopIteration")))
+            st.assume(a.t != EmptySet)
+            x = fresh("next", Val)
+            st.define(z3.Select(a.t, x))
+            return eng.schema.refine(SV("val", x, cls=a.cls))
         if name == "bytearray" or name == "bytes":
             if not args:
                 return SV("bytes", z3.K(Int, VInt(0)), x=z3.IntVal(0))
